@@ -256,14 +256,38 @@ def check(rep):
         d = layers.token_diff(layers.parse_model_token(o), layers.impl_token(t))
         if d:
             rep.fail("correspondence", f"token layer on {t!r}: " + "; ".join(d[:3]), {"layer": "token", "text": t}, expected=o[:300], observed=str(layers.impl_token(t))[:300])
+    # tie K on stochastic objects: the '{...}|dist|' pieces of the valid instances, as written and broken (byte mutations, list lengths)
+    objs = []
+    for text in base[:80]:
+        for m in re.finditer(r"\{[^{}]*\}(\|[^|]*\|)?", text):
+            s = m.group(0)
+            objs.append(s)
+            for _ in range(3):
+                k = rnd.randrange(len(s))
+                objs.append(s[:k] + rnd.choice("{}[];,|$<> 1") + s[k:])
+                objs.append(s[:k] + s[k + 1:])
+            objs.append(re.sub(r"\[([$<>])\]", lambda mm: "[" + mm.group(1) + "|1 2|]", s, count=1))
+    objs += ["", "{", "{}", "{[]}", "{[$]}", "x{[$][$]C[$][$]}", "{[$][$]C[$][$]}|foo(1)|", "{[$][$]C[$][$]}|gauss|", "{[$] , ; [$]}", "{[$][$]C[$][$]", "{[$][$]C[$];[$]}"]
+    objs = list(dict.fromkeys(objs))[: (900 if quick else 20000)]
+    obj_hist = {}
+    for t, o in zip(objs, fw.run_driver([layers.stoch_line(t) for t in objs])):
+        evaluations += 1
+        mo, io = layers.parse_model_stoch(o), layers.impl_stoch(t)
+        k = "accepted" if isinstance(io, dict) else io[0] + ":" + io[1]
+        obj_hist[k] = obj_hist.get(k, 0) + 1
+        d = layers.stoch_diff(mo, io)
+        if d:
+            rep.fail("correspondence", f"stochastic-object layer on {t!r}: " + "; ".join(d[:3]), {"layer": "stochastic", "text": t}, expected=str(mo)[:300], observed=str(io)[:300])
     rep.coverage.update({"evaluations": evaluations, "distinct_nontrivial": len(distinct), "valid_instances": len(base), "operators": [o.__name__ for o in OPS],
+                         "object_texts_vs_model": len(objs), "object_outcomes": dict(sorted(obj_hist.items())),
                          "operator_outcomes": dict(sorted(ophist.items())), "byte_mutations": muts, "token_texts_vs_model": len(toks),
                          "rule": "every valid instance (documented + structured generator) x 12 breaking operators (one rule violated at a random position) + terminal-list and "
                                  "system-level probes + byte-level mutations (insert / delete / replace / duplicate) under a 2 s limit; distinct_nontrivial = distinct (operator, broken text)",
                          "samples": [{"text": op_paren(random.Random(1), base[0])[0], "operator": "op_paren"}, {"text": "CC.|50", "operator": "system_unclosed_specifier"}]})
-    rep.assumptions = ["PARTIAL: termination is a theorem for the descriptor parser, the token parser and the system splitting loop; for the stochastic-object and molecule "
-                       "constructors it is checked by byte-level mutations under a time limit"]
-    return fw.finish(rep, coq, fw.COMMON_TRUSTED + ["modelled, not verified: bond.py:26-118, token.py:37-199, system.py:105-126 (splitting loop)"],
+    rep.assumptions = ["PARTIAL: termination is a theorem for the descriptor parser, the token parser, the stochastic-object parser and the system splitting loop; for the molecule "
+                       "constructor it is checked by byte-level mutations under a time limit",
+                       "an exception raised inside a distribution constructor while parsing its parameters (ast.literal_eval, float) is outside the model: such texts are not compared"]
+    return fw.finish(rep, coq, fw.COMMON_TRUSTED + ["modelled, not verified: bond.py:26-118, token.py:37-199, stochastic.py:24-141, system.py:105-126 (splitting loop)"],
                      "make -C coq Props/C15.vo (coqc 8.16.1, full .vo build) + Print Assumptions audit")
 
 
